@@ -71,6 +71,8 @@ class H5:
         k = self.I.resolve(k)
         if isinstance(k, SAtom):
             return "<" + (k.label or "atom") + ">"
+        if not isinstance(k, str):
+            raise sx.Unsupported(f"HDF5 member name {k!r} (a string the model cannot compare)")
         return k
 
     def group(self, name):
@@ -866,9 +868,58 @@ def unit_canaries(tier=None, seed=None):
     return run_canaries("C16", CANARIES)
 
 
+def unit_bounded_meta_override(tier=None, seed=0):
+    """the round trip of a curve that could only be loaded with overridden metadata (the workshop csv format has no
+    spring constant): the container stores the raw file, not what the user supplied with it"""
+    import pathlib
+    import shutil
+    import tempfile
+    import time
+    import warnings
+    import numpy as np
+    import nanite
+    from nanite.rate import io as rio
+    t0 = time.time()
+    src = pathlib.Path(os.environ.get("VF_REPO", "/repo")) / "tests" / "data" / "fmt-afm-workshop-fd_single_2021-10-22_14.16.csv"
+    tmp = pathlib.Path(tempfile.mkdtemp(prefix="vf-c16m-"))
+    problem, ne = None, 0
+    try:
+        with warnings.catch_warnings():
+            warnings.simplefilter("ignore")
+            f = tmp / src.name
+            shutil.copy(src, f)
+            idnt = nanite.load_group(f, meta_override={"spring constant": 20})[0]
+            idnt.fit_model(preprocessing=["compute_tip_position", "correct_force_offset", "correct_tip_offset"],
+                           model_key="hertz_para")
+            h5 = tmp / "container.h5"
+            rio.save_hdf5(h5, idnt, user_rate=5, user_name="u", user_comment="c")
+            ne += 1
+            try:
+                back = rio.load_hdf5(h5)
+                ne += 1
+                if len(back) != 1 or not np.array_equal(np.array(back[0]["data"]["fit"]), np.array(idnt["fit"]),
+                                                         equal_nan=True):
+                    problem = {"input": "workshop csv loaded with meta_override={'spring constant': 20}",
+                               "what": "loaded entry differs from the stored curve"}
+            except BaseException as exc:
+                problem = {"input": "workshop csv loaded with meta_override={'spring constant': 20}, fitted, stored",
+                           "what": f"load_hdf5 raises {type(exc).__name__}: {exc}"[:200]}
+    finally:
+        shutil.rmtree(tmp, ignore_errors=True)
+    res = UnitResult(unit="bounded.meta_override")
+    res.bounded.append(BoundedResult(
+        bid="C16.bounded.round_trip_of_a_curve_loaded_with_meta_override", ok=problem is None, evaluations=ne,
+        distinct=ne, bound="one recorded curve (afm-workshop csv, spring constant supplied by meta_override), one save, "
+                           "one load", detail="round trip ok" if problem is None else problem["what"],
+        samples=[], failing_input=problem, witness="" if problem is None else "meta_override",
+        time_s=round(time.time() - t0, 2)))
+    return res
+
+
 def units(tier):
     us = [Unit("save_hdf5", unit_save), Unit("load_hdf5", unit_load), Unit("codec_lemmas", unit_codecs),
-          Unit("bounded.container_sequences", unit_bounded_sequences)]
+          Unit("bounded.container_sequences", unit_bounded_sequences),
+          Unit("bounded.meta_override", unit_bounded_meta_override)]
     if tier == "thorough" and not os.environ.get("VF_NO_CANARIES") and str(REPO) == "/repo":
         us.append(Unit("selftest.canaries", unit_canaries))
     return us
